@@ -181,6 +181,19 @@ def build(case, enter_head=True):
     return objs
 
 
+def classify_error(ex):
+    """'RuntimeError' for the 100-step guard (alone or as a member of a group of reported errors), else the repr"""
+    members = [ex]
+    seen = []
+    while members:
+        e = members.pop()
+        seen.append(e)
+        members.extend(getattr(e, "exceptions", ()) or ())
+    if any(type(e) is RuntimeError and "100 times" in str(e) for e in seen):
+        return "RuntimeError"
+    return repr(ex)
+
+
 def describe(ctx, error=None):
     objs = W["objs"]
     idx = None
@@ -227,9 +240,9 @@ def run_top(case):
     try:
         fill_context(ctx)
     except RuntimeError as ex:
-        err = "RuntimeError" if type(ex) is RuntimeError and "100 times" in str(ex) else repr(ex)
+        err = classify_error(ex)
     except BaseException as ex:
-        err = repr(ex)
+        err = classify_error(ex)
     out = describe(ctx, err)
     finish()
     return out
@@ -254,8 +267,8 @@ def run_inside(case):
     def fn():
         try:
             fill_context(ctx)
-        except RuntimeError as ex:
-            holder["err"] = "RuntimeError" if type(ex) is RuntimeError and "100 times" in str(ex) else repr(ex)
+        except Exception as ex:
+            holder["err"] = classify_error(ex)
     st = extract(Item(fn))
     err = holder.get("err")
     if st.error is not None:
@@ -311,7 +324,7 @@ def run_frames(case):
     err = None
     if st.error is not None:
         e = st.error
-        err = "RuntimeError" if type(e) is RuntimeError and "100 times" in str(e) else repr(e)
+        err = classify_error(e)
     if not st.frames or len(st.frames[0].contexts) != 2:
         out = {"obj": "no-context", "log": [list(x) for x in LOG], "error": err}
     else:
@@ -339,9 +352,9 @@ def run_stack(case):
     try:
         fill_context(ctx)
     except RuntimeError as ex:
-        err = "RuntimeError" if type(ex) is RuntimeError and "100 times" in str(ex) else repr(ex)
+        err = classify_error(ex)
     except BaseException as ex:
-        err = repr(ex)
+        err = classify_error(ex)
     kids = [c for c in ctx.children if isinstance(c, Context)]
     if err is None and len(kids) != 2:
         out = {"obj": "children=%d" % len(kids), "log": [list(x) for x in LOG], "error": err}
